@@ -19,4 +19,9 @@ PROP_ASSUMPTIONS = {
         "valid documents have acyclic fragment spreads (executable validation), so fragments can be numbered topologically",
         "selection tree → model encoding in harness/src/p25.rs (field names fields|interfaces|possibleTypes|inputFields ↦ list field)",
     ],
+    "C10": [
+        "Model/Numbers.lean mirrors IntValue::valid_syntax / FloatValue::valid_syntax / From<i32> / From<f64> by hand; tied by exhaustive correspondence",
+        "Rust's Display for i32 is modelled by natDigits/intToString (compared on 100k+ values incl. boundaries); f64 Display shape is a stated hypothesis",
+        "shortest-round-trip float printing and str::parse::<f64> are trusted (numeric round-trip checked on the implementation only)",
+    ],
 }
